@@ -438,6 +438,90 @@ class LinesHarness(object):
         return {"cls": cls, "sample": w, "counters": {"validated": validate_plain(w, value, m)}}
 
 
+class MultiLinesHarness(object):
+    """An entry of the list that holds several lines (joined by newlines) is the sequence of its lines: write_lines on
+    [a + NL + b, "x"] must write what write_lines on [a, b, "x"] writes (the single-line kernel decides what that is).
+    Both runs are the real function; every character of a and b is symbolic."""
+
+    def __init__(self, n1, n2, indent, cont, unit, twin=False):
+        self.n1, self.n2, self.indent, self.cont, self.unit, self.twin = n1, n2, indent, cont, unit, twin
+
+    def run(self, e):
+        self.zs = [z3.Int("c%d" % i) for i in range(self.n1 + self.n2)]
+        for z in self.zs:
+            e.assume(z3.And(z >= 1, z <= 0x10FFFF, z != NL))
+        # directive-only lines are outside the claim (as in the single-line kernel): the lines begin with no '-' or '+'
+        # and do not end in '+' / '-'; '^', '#', '@' directives are inside
+        for grp in (self.zs[:self.n1], self.zs[self.n1:]):
+            e.assume(z3.And([grp[0] != ord(c) for c in "+-"]))
+            e.assume(z3.And([grp[-1] != ord(c) for c in "+-"]))
+            if len(grp) == 1:
+                e.assume(grp[0] != ord("@"))
+        a = [SymChar(e, z) for z in self.zs[:self.n1]]
+        b = [SymChar(e, z) for z in self.zs[self.n1:]]
+        self.ll = z3.Int("linelen")
+        e.assume(self.ll >= 1)
+        nlz = z3.Int("newline_char")
+        e.assume(nlz == NL)
+        out = []
+        for lines in ([SymStr(e, a + [SymChar(e, nlz)] + b), "x"], [SymStr(e, a), SymStr(e, b), "x"]):
+            w = make_mixin(self.indent, self.cont, SymInt(e, self.ll))
+            fp = FP()
+            w.write_lines(fp, lines, self.unit)
+            out.append(fp.items)
+        return out
+
+    def witness(self, m):
+        s = "".join(chr(m.eval(z, model_completion=True).as_long()) for z in self.zs)
+        return {"kind": "multi", "lines": [s[:self.n1] + "\n" + s[self.n1:], "x"],
+                "linelen": m.eval(self.ll, model_completion=True).as_long(),
+                "indent": self.indent, "cont": self.cont, "unit": self.unit}
+
+    def judge(self, e, kind, value):
+        if kind == "exc":
+            w = self.witness(e.model())
+            w["what"] = "exception %s: %s" % (type(value).__name__, value)
+            return {"cls": "multi/exception:" + type(value).__name__, "violation": w}
+        flat = []
+        for items in value:
+            f = []
+            for it in items:
+                if isinstance(it, str):
+                    f.extend(z3.IntVal(ord(c)) for c in it)
+                elif isinstance(it, SymStr):
+                    f.extend((c.z if hasattr(c, "z") else z3.IntVal(ord(c))) for c in it.c)
+                else:
+                    f.append(it.z)
+            flat.append(f)
+        what = None
+        if len(flat[0]) != len(flat[1]):
+            what = "a two-line entry writes %d characters, its two lines as separate entries write %d" % (len(flat[0]), len(flat[1]))
+        elif flat[0] and e.check(z3.Or([x != y for x, y in zip(flat[0], flat[1])])) == "sat":
+            what = "a two-line entry is not written as its two lines are"
+        if self.twin and not what:
+            what = "reachability twin"
+        if what:
+            w = self.witness(e.model())
+            w["what"] = what
+            return {"cls": "multi", "violation": w}
+        return {"cls": "multi/ok", "sample": self.witness(e.model())}
+
+
+def make_multi(**kw):
+    return MultiLinesHarness(**kw)
+
+
+def confirm_multi(w):
+    """plain strings through the real function, both ways"""
+    outs = []
+    for lines in (w["lines"], w["lines"][0].split("\n") + w["lines"][1:]):
+        o, exc = plain_run(dict(w, kind="write_lines", lines=lines))
+        outs.append(("exception %s" % type(exc).__name__) if exc is not None else o)
+    if outs[0] != outs[1]:
+        return "%s: %r vs %r" % (w.get("what"), outs[0][:120], outs[1][:120])
+    return None
+
+
 def make_continue(**kw):
     return ContinueHarness(**kw)
 
@@ -530,6 +614,11 @@ def replay(path):
     if w.get("kind") == "files":
         verdict = confirm_files(w)
         print("configuration: name_length=%(name_length)s C_line_length=%(C_line_length)s F_line_length=%(F_line_length)s" % w)
+        print("verdict: %s" % (verdict or "property holds on this input"))
+        return verdict
+    if w.get("kind") == "multi":
+        verdict = confirm_multi(w)
+        print("input  : %r linelen=%s indent=%s cont=%r unit=%r" % (w["lines"], w["linelen"], w["indent"], w["cont"], w["unit"]))
         print("verdict: %s" % (verdict or "property holds on this input"))
         return verdict
     verdict, out = confirm(w)
@@ -696,6 +785,13 @@ def main():
             twin_ok = False
             rep.inconc("reachability twin %s did not fail on every path (%d/%d) %s"
                        % (fac, a.nviol, a.stats.paths, a.inconclusive[:1]))
+    (indent0, cont0, unit0) = cfgs[0]
+    for n1, n2 in ((1, 1), (2, 1), (1, 2), (2, 2)) + (((3, 2), (2, 3)) if tier != "quick" else ()):
+        jobs.append(("make_multi", dict(n1=n1, n2=n2, indent=indent0 + 2, cont=cont0, unit=unit0)))
+    a = driver.explore(("harness.C13", "make_multi", dict(n1=1, n2=1, indent=2, cont="&", unit=" ", twin=True)), nworkers=1)
+    if a.inconclusive or a.nviol != a.stats.paths or a.stats.paths == 0:
+        twin_ok = False
+        rep.inconc("reachability twin make_multi did not fail on every path (%d/%d) %s" % (a.nviol, a.stats.paths, a.inconclusive[:1]))
     jobs.append(("make_files", {}))
     specs = [("harness.C13", fac, kw) for fac, kw in jobs]
     accs = driver.explore_many(specs, split_depth=7, time_budget_s=budget)
@@ -722,6 +818,16 @@ def main():
                 seen.add(key)
                 rep.violation(path, "%s  name_length=%d C_line_length=%d F_line_length=%d" % (
                     verdict, v["name_length"], v["C_line_length"], v["F_line_length"]))
+            continue
+        if v["kind"] == "multi":
+            verdict = confirm_multi(v)
+            if verdict is None:
+                rep.inconc("counterexample did not reproduce on the plain run: %r" % (v,))
+                continue
+            confirmed += 1
+            if key not in seen:
+                seen.add(key)
+                rep.violation(path, "%s linelen=%s indent=%s cont=%r unit=%r" % (verdict, v["linelen"], v["indent"], v["cont"], v["unit"]))
             continue
         verdict, _ = confirm(v)
         if verdict is None:
